@@ -20,6 +20,7 @@
 //   ua    unsigned_rule + unsigned_action, U st   uw  unsigned_rule_with_action, apply_mode::action, U st
 //   uwn   unsigned_rule_with_action, apply_mode::nothing
 //   mr:M  maximum_rule< U, M >                    ma:M maximum_rule< U, M > + maximum_action< U, M >
+//   um:M  unsigned_rule + maximum_action< U, M > (the action meets values above M)
 //   mw:M  maximum_rule_with_action< U, M >, action mode   mwn:M  same, apply_mode::nothing
 //   sr    signed_rule                             srn signed_rule_new
 //   sa    signed_rule + signed_action, S st       sw  signed_rule_with_action, action mode, S st
@@ -138,6 +139,16 @@ struct act_m
    {};
 };
 
+// maximum_action attached to a rule that accepts more than the maximum: the action itself has to report the overflow
+template< U M >
+struct act_um
+{
+   template< typename Rule >
+   struct type
+      : std::conditional_t< std::is_same_v< Rule, pegtl::unsigned_rule >, pegtl::maximum_action< U, M >, pegtl::nothing< Rule > >
+   {};
+};
+
 // run one rule through parse<>; `st` (if any) receives the converted value
 template< typename Rule, template< typename... > class Action, pegtl::apply_mode A, bool Stored, typename... St >
 std::string run_rule( const char* b, const std::size_t n, St&... st )
@@ -201,6 +212,7 @@ static void add_max_ops( std::vector< Op >& v, const std::string& m )
                  } } );
    v.push_back( { "mr:" + m, []( const char* b, std::size_t n ) { return run_rule< pegtl::maximum_rule< U, M >, pegtl::nothing, pegtl::apply_mode::action, false >( b, n ); } } );
    v.push_back( { "ma:" + m, []( const char* b, std::size_t n ) { U st = 77; return run_rule< pegtl::maximum_rule< U, M >, act_m< M >::template type, pegtl::apply_mode::action, true >( b, n, st ); } } );
+   v.push_back( { "um:" + m, []( const char* b, std::size_t n ) { U st = 77; return run_rule< pegtl::unsigned_rule, act_um< M >::template type, pegtl::apply_mode::action, true >( b, n, st ); } } );
    v.push_back( { "mw:" + m, []( const char* b, std::size_t n ) { U st = 77; return run_rule< pegtl::maximum_rule_with_action< U, M >, pegtl::nothing, pegtl::apply_mode::action, true >( b, n, st ); } } );
    v.push_back( { "mwn:" + m, []( const char* b, std::size_t n ) { U st = 77; return run_rule< pegtl::maximum_rule_with_action< U, M >, pegtl::nothing, pegtl::apply_mode::nothing, false >( b, n, st ); } } );
 }
